@@ -30,6 +30,8 @@ PROPS = {
     "C04": dict(run="^TestC04$", shards=(4, 16), deadline=(300, 1800)),
     "C05": dict(run="^TestC05$", shards=(4, 16), deadline=(300, 1800)),
     "C12": dict(run="^TestC12$", shards=(4, 16), deadline=(300, 1800)),
+    "C16": dict(run="^TestC16$", shards=(4, 16), deadline=(300, 1800)),
+    "C17": dict(run="^TestC17$", shards=(4, 16), deadline=(300, 1800)),
     "C13": dict(run="^TestC13$", shards=(1, 4), deadline=(120, 900)),
 }
 
